@@ -685,6 +685,8 @@ def _visitor_chunk(args):
             fails += f2
             fails += VC.check_chain(text, parse)
         fails += VC.check_transforms(text, parse)
+        if n <= 40 or text in VISITOR_DOCUMENTS:
+            fails += VC.check_cross_kind(text, parse)
         if text in EQUAL_SIBLING_DOCUMENTS:
             # without locations structurally equal siblings compare equal: an edit must still hit the node it was made at, not its first equal sibling
             noloc = lambda t: P.parse(t, allow_type_system=True, experimental_fragment_variables=True, no_location=True)      # noqa: E731
@@ -701,6 +703,7 @@ EQUAL_SIBLING_DOCUMENTS = [
     "type T { a: Int b: Int a: Int } enum E { A B A } union U = A | B | A",
 ]
 VISITOR_DOCUMENTS = EQUAL_SIBLING_DOCUMENTS + [
+    "{ _ a { __ foo_barBaz: foo_barBaz _x_ x__y } foo: _(x: 1) { bar } }",
     "{ x: a @skip(if: true) b y: someField(snake_arg: 1) @include(if: false) { z: inner_field @d(a: [1]) innerField } }",
     "query ($v: Boolean!) { ... on T @d { x: a @skip(if: $v) { y: b @include(if: $v) } } ...F } fragment F on T { fooBar: foo_bar @d fooBar2: fooBar }",
     "mutation { do_it: doIt(input_value: {snake_key: 1}) @d { __typename resultCode: result_code @d } }",
